@@ -2136,6 +2136,105 @@ def rule_sklearn_init(chk, uni):
             chk.ok("sklearn-init", inst)
 
 
+
+# ----------------------------------------------------------------------------
+# round 11: a scalar-initialised accumulator is not indexed like an array before something promoted it
+# ----------------------------------------------------------------------------
+def _literal_trip_positive(lp):
+    it = lp.iter
+    if isinstance(it, ast.Call) and pf.call_name(it) == "range" and all(isinstance(a, ast.Constant) for a in it.args):
+        try:
+            return len(range(*[a.value for a in it.args])) > 0
+        except Exception:
+            return False
+    if isinstance(it, (ast.List, ast.Tuple)):
+        return len(it.elts) > 0
+    return False
+
+
+def rule_scalar_accumulator(chk, uni, prog):
+    n_acc = 0
+    for mod in (uni.km, prog.module(DKR)):
+        fns = [(fn.name, fn) for fn in mod.functions.values()]
+        for cname, cls in mod.classes.items():
+            fns += [("%s.%s" % (cname, n), f) for n, f in pf.methods(cls).items()]
+        for where, fn in fns:
+            lits = {}
+            for st in pf.walk_no_nested(fn):
+                if isinstance(st, ast.Assign) and len(st.targets) == 1 and isinstance(st.targets[0], ast.Name) \
+                        and isinstance(st.value, ast.Constant) and isinstance(st.value.value, (int, float)) \
+                        and not isinstance(st.value.value, bool):
+                    lits.setdefault(st.targets[0].id, []).append(st)
+            if not lits:
+                continue
+            uses = {}
+            for x in pf.walk_no_nested(fn):
+                if isinstance(x, ast.Subscript) and isinstance(x.value, ast.Name) and x.value.id in lits \
+                        and isinstance(x.ctx, ast.Load) and isinstance(x.slice, (ast.Tuple, ast.Slice)):
+                    uses.setdefault(x.value.id, []).append(x)
+            if not uses:
+                continue
+            g = cfgm.CFG(fn)
+            for nm, us in sorted(uses.items()):
+                n_acc += 1
+                promote = set()
+                for st in pf.walk_no_nested(fn):
+                    if isinstance(st, ast.Assign) and any(isinstance(t, ast.Name) and t.id == nm for t in st.targets) \
+                            and st not in lits[nm]:
+                        # re-binding to something computed (e.g. nm = nm[..] * X) is itself a use when it indexes nm
+                        if not any(isinstance(y, ast.Subscript) and isinstance(y.value, ast.Name) and y.value.id == nm
+                                   for y in ast.walk(st.value)):
+                            promote.add(g.node_of(st).id)
+                loop_of = {}
+                for lp in pf.walk_no_nested(fn):
+                    if isinstance(lp, ast.For):
+                        loop_of[g.node_of(lp).id] = (lp, {id(y) for y in ast.walk(lp)} - {id(lp)})
+                bad = None
+                for d in lits[nm]:
+                    for u in us:
+                        un = g.stmt_of_expr(u)
+                        if un is None:
+                            continue
+                        seen, work = set(), [(v, False) for v in g.succ[g.node_of(d).id]]
+                        while work:
+                            cur, from_body = work.pop()
+                            if (cur, from_body) in seen:
+                                continue
+                            seen.add((cur, from_body))
+                            if cur == un.id:
+                                bad = (d, u)
+                                break
+                            if cur in promote:
+                                continue
+                            for v in g.succ[cur]:
+                                if cur in loop_of and g.edge_label.get((cur, v)) == "F" and _literal_trip_positive(loop_of[cur][0]) \
+                                        and not from_body:
+                                    continue  # a loop over a non-empty literal range runs at least once
+                                fb = False
+                                if v in loop_of:
+                                    n_ = g.nodes[cur]
+                                    fb = n_.ast is not None and id(n_.ast) in loop_of[v][1]
+                                work.append((v, fb))
+                        if bad:
+                            break
+                    if bad:
+                        break
+                inst = "%s: %s, initialised with a number, holds an array whenever it is indexed like one" % (where, nm)
+                if bad is None:
+                    chk.ok("scalar-accumulator", inst)
+                else:
+                    d, u = bad
+                    chk.violation("scalar-accumulator", mod.rel, where, "array index of %s" % nm, u.lineno,
+                                  "`%s` starts as the number `%s` and only the `+=` inside a loop can turn it into an array, "
+                                  "but `%s` indexes it like an array on a path where that loop body contributes nothing "
+                                  "array-valued (the loop runs zero times, or its first pass adds a scalar): TypeError "
+                                  "for small orders instead of a zero/constant gradient"
+                                  % (nm, pf.src(d.value), pf.src(u)[:40]), instance=inst)
+    chk.count("scalar-initialised accumulators indexed as arrays", n_acc)
+    chk.ok("scalar-accumulator", "kernels.py, dft_kernel.py: %d scalar-initialised names are indexed like arrays" % n_acc,
+           nontrivial=False)
+
+
 # ----------------------------------------------------------------------------
 def analyse(chk):
     tree = chk.tree
@@ -2180,6 +2279,9 @@ def analyse(chk):
     chk.floor("scatter-accumulate", 1, "_SpinSymMixin.k_and_deriv")
     chk.floor("lock-release", 3, "six locked regions")
     chk.floor("sklearn-init", 16, "kernel classes")
+    chk.rule("scalar-accumulator", "a number-initialised accumulator is never indexed like an array before it was promoted")
+    chk.guard(rule_scalar_accumulator, uni, prog)
+    chk.floor("scalar-accumulator", 1, "summary instance")
     chk.rule("newton-girard", "list recursions that re-use earlier entries normalise each entry inside the loop, like their siblings")
     chk.guard(rule_newton_girard, uni)
     chk.floor("newton-girard", 4, "value and derivative recursions of DiffARBF and DiffAdditiveMixin")
@@ -2461,7 +2563,7 @@ def mutants(tree):
                "            if Y is not None:\n                shape = (X.shape[0], Y.shape[0], X.shape[1])",
                expect="sibling-primitives"),
         Mutant("poly derivative value without gamma", KR,
-               "        k = 1.0\n        dk = 0.0\n        dot1 = (self.gamma * X).dot(Y.T)", "        k = 1.0\n        dk = 0.0\n        dot1 = X.dot(Y.T)",
+               "        k = 1.0\n        dot1 = (self.gamma * X).dot(Y.T)\n", "        k = 1.0\n        dot1 = X.dot(Y.T)\n",
                expect="sibling-primitives"),
         Mutant("SingleRBF-style override gains an inherited k_and_deriv", KR,
                "class SingleRBF(RBF):", "class SingleRBF(DiffRBF):", expect="sibling-override"),
@@ -2490,9 +2592,9 @@ def mutants(tree):
         Mutant("RBF k_and_deriv centres Y in place", KR, "        k = self.__call__(X, Y)\n        dk = k[:, :, None] * (Y[None, :, :] - X[:, None, :])",
                "        k = self.__call__(X, Y)\n        Yv = Y[None, :, :]\n        Yv -= X[:, None, :]\n        dk = k[:, :, None] * Yv",
                expect="param-write"),
-        Mutant("poly scales X through an alias", KR, "        dot1 = (self.gamma * X).dot(Y.T)\n        dotn = 1\n        for n in range(1, self.order + 1):\n            if self.factorial:\n                dk += dotn",
-               "        Xs = X\n        Xs[:] = self.gamma * X\n        dot1 = Xs.dot(Y.T)\n        dotn = 1\n        for n in range(1, self.order + 1):\n            if self.factorial:\n                dk += dotn",
-               expect="param-write"),
+        Mutant("poly scales X through an alias", KR,
+               "        k = 1.0\n        dot1 = (self.gamma * X).dot(Y.T)\n",
+               "        k = 1.0\n        Xs = X\n        Xs[:] = self.gamma * X\n        dot1 = Xs.dot(Y.T)\n", expect="param-write"),
         Mutant("get_k zeroes small features of X0T in place", DKR, "        nspin, N0, Nsamp = X0T.shape\n        X1 = self.get_descriptors(X0T)\n        if self.mode == \"POL\":\n            if nspin == 1:\n                X1 = np.concatenate([X1, X1], axis=0)\n            elif nspin != 2:\n                raise ValueError\n            X1 = X1.reshape(2, Nsamp, self.N1)\n            kaa = self.kernel(X1[0], self.X1ctrl[0])",
                "        nspin, N0, Nsamp = X0T.shape\n        X0T[X0T < 1e-12] = 0.0\n        X1 = self.get_descriptors(X0T)\n        if self.mode == \"POL\":\n            if nspin == 1:\n                X1 = np.concatenate([X1, X1], axis=0)\n            elif nspin != 2:\n                raise ValueError\n            X1 = X1.reshape(2, Nsamp, self.N1)\n            kaa = self.kernel(X1[0], self.X1ctrl[0])",
                expect="param-write"),
@@ -2527,6 +2629,9 @@ def mutants(tree):
                new=r"\1", expect="sklearn-init"),
         Mutant("QARBF stores ndim under another name", KR, "        self.ndim = ndim\n        self.scale = scale\n",
                "        self.n_dim = ndim\n        self.scale = scale\n", expect=None),
+        Mutant("poly k_and_deriv accumulator starts as the float 0.0", KR, regex=True,
+               old=r"(?:        #.*\n)*        dk = np\.zeros\(dot1\.shape, dtype=dot1\.dtype\)\n", new="        dk = 0.0\n",
+               expect="scalar-accumulator"),
         # Newton-Girard recursions (each mutant reverts one site of the fix)
         Mutant("ARBF.__call__ derivative recursion normalised at the summation", KR, fn=_revert_ng(0), expect="newton-girard"),
         Mutant("ARBF.k_and_deriv derivative recursion normalised at the summation", KR, fn=_revert_ng(1), expect="newton-girard"),
@@ -2548,9 +2653,9 @@ def mutants(tree):
         Mutant("remove a _locked = False (Subset.diag)", KR,
                "        try:\n            result = self._base_cls.diag(self, X[:, self.indexes])\n        finally:\n            self._locked = False\n        return result",
                "        result = self._base_cls.diag(self, X[:, self.indexes])\n        return result", expect="lock-pairing"),
-        Mutant("early return before release (SpinSym.diag)", KR,
-               "        diag += np.diag(self._base_cls.__call__(self, XB, XA))\n        self._locked = False\n        return diag",
-               "        diag += np.diag(self._base_cls.__call__(self, XB, XA))\n        if diag.size == 0:\n            return diag\n        self._locked = False\n        return diag",
+        Mutant("early return before release (SpinSym.__call__)", KR,
+               "        if eval_gradient:\n            k, dk = k\n        k = k[:NX] + k[NX:]",
+               "        if eval_gradient:\n            k, dk = k\n        self._locked = True\n        if NX == 0:\n            return k\n        self._locked = False\n        k = k[:NX] + k[NX:]",
                expect="lock-pairing"),
         Mutant("diag no longer takes the lock around its delegation", KR,
                "        self._locked = True\n        try:\n            result = self._base_cls.diag(self, X[:, self.indexes])\n        finally:\n            self._locked = False\n        return result",
@@ -2563,8 +2668,8 @@ def mutants(tree):
                "            return self._base_cls.k_and_deriv(self, X, Y=Y)\n        try:\n            if Y is not None:\n                Y = Y[:, self.indexes]",
                expect="lock-pairing"),
         Mutant("release before the base call (SpinSym.diag)", KR,
-               "        diag = self._base_cls.diag(self, XA)\n        diag += self._base_cls.diag(self, XB)",
-               "        self._locked = False\n        diag = self._base_cls.diag(self, XA)\n        diag += self._base_cls.diag(self, XB)",
+               "            diag = self._base_cls.diag(self, XA)\n            diag += self._base_cls.diag(self, XB)",
+               "            self._locked = False\n            diag = self._base_cls.diag(self, XA)\n            diag += self._base_cls.diag(self, XB)",
                expect="lock-pairing"),
         Mutant("_index_and_lock gets a caller", KR,
                "        self._locked = True\n        try:\n            result = self._base_cls.diag(self, X[:, self.indexes])",
